@@ -2,8 +2,40 @@ import HexProofs.Writes.PropsLib
 import HexProofs.Manager2.HATf
 import HexProofs.Manager2.TwinSched
 import HexProofs.Manager2.TrimTf
+import HexProofs.Manager2.HAFill
 /-
-C08, members WITH their own timeframe: skeleton
+C08, members WITH their own timeframe (`C08.members_FULL`).
+
+`Writes/Twin.lean` (`member_twin`) already keeps ANY member – own timeframe or not – in step with a standalone
+indicator over *the manager the member is attached to* (`twinManager`): for a member with a timeframe that is
+`Manager.init {cfg with tf} (the default manager's candles at construction time, handed over raw)`, and every
+later `Hexital.append` feeds every manager the caller's candles.  What was missing is the manager refinement
+
+    HandsOverRaw :  twinManager cfg htf atf secs init = Manager.init {cfg with tf := secs} init
+
+i.e. that this manager IS the manager of the plain standalone twin constructed from the caller's candles.
+
+Proved here (every `F`):
+  * `HandsOverRaw` when
+      (a) the Hexital is constructed without candles – ANY Hexital-level timeframe / fill / Heikin-Ashi / lifespan
+          (`handsOverRaw_nil`);
+      (b) the Hexital has no timeframe of its own, the construction candles are pristine and its lifespan trims
+          none of them at construction time – Heikin-Ashi or not: `recover_clean_values` gives the raw candles
+          back (`handsOverRaw_rawDefault`, from `tasks_rawDefault`);
+      (c) the member's timeframe is the Hexital's own and the manager's tasks are idempotent on the construction
+          candles (`handsOverRaw_sameTf`); idempotence for timeframe alone, + Heikin-Ashi, + lifespan, + fill,
+          + fill + Heikin-Ashi (`tasks_idem_*`, from the manager refinement libraries).
+  * `member_standalone_tf`: `C08.member_standalone` for ANY member under `HandsOverRaw` – any program of
+    `calculate / calculate_index / purge / recalculate / append / add_indicator / remove_indicator (of others)`.
+  * `members_partial` / `members_rawAtAttach` / `members_attachOK`: the statement of `members_FULL` word for
+    word, plus its presuppositions (no collision: `TreeOK`; well-formed `Member` records) and `HandsOverRaw` /
+    (a)–(b) / (a)–(c).
+  * `members_FULL_counterexample`: `members_FULL` AS STATED IS FALSE – a Hexital-level lifespan that trims at
+    construction time hands the member manager a truncated bucket (replayed on the library).
+Still open: a Hexital-level timeframe together with a DIFFERENT (coarser) member timeframe and non-empty
+construction candles (needs `resample t2 (resample t1 s) = resample t2 s`, which holds only up to the
+associativity of the volume sum – false for IEEE doubles, see the report); (c) with lifespan + fill /
+lifespan + Heikin-Ashi (no idempotence lemma in the manager libraries).
 -/
 namespace Hex
 variable {F : Type} [PyF F] {N : List String}
@@ -535,9 +567,383 @@ theorem tasks_idem_plainTf (cfg : MgrCfg) (tf : Int) (htf : 0 < tf) (h1 : cfg.tf
   have e2 := collapse_resample_append tf htf init [] (by simpa using hraw.stamped)
     (by simpa using hraw.cleanOk tf) (by simpa using hm)
   simp only [resample, resampleR, List.foldl_nil, List.reverse_nil, List.nil_append, List.append_nil] at e1 e2
-  simp only [resample] at hX
   rw [e1] at hX
   cases hX
   exact e2
+
+/-- timeframe + Heikin-Ashi (no fill, no lifespan) -/
+theorem tasks_idem_tfHA (cfg : MgrCfg) (tf : Int) (htf : 0 < tf) (h1 : cfg.tf = some tf) (h2 : cfg.fill = false)
+    (h3 : cfg.ha = true) (h4 : cfg.lifespan = none) (init : List (Candle F)) (hraw : RawHA init) :
+    ∀ X, tasks cfg init = .ok X → tasks cfg X = .ok X := by
+  have hcfg : cfg = cfgTfHA tf := by
+    obtain ⟨a, b, c, d⟩ := cfg
+    simp only at h1 h2 h3 h4
+    subst h1 h2 h3 h4
+    rfl
+  subst hcfg
+  intro X hX
+  have e1 := tasks_tf_ha_append tf htf [] init (by simpa using hraw)
+  have e2 := tasks_tf_ha_append tf htf init [] (by simpa using hraw)
+  simp only [resample, resampleR, List.foldl_nil, List.reverse_nil, haSpec_nil, List.nil_append,
+    List.append_nil] at e1 e2
+  rw [e1] at hX
+  cases hX
+  exact e2
+
+/-- timeframe + lifespan (no fill, no conversion) -/
+theorem tasks_idem_tfLife (cfg : MgrCfg) (tf life : Int) (htf : 0 < tf) (hlife : 0 ≤ life)
+    (h1 : cfg.tf = some tf) (h2 : cfg.fill = false) (h3 : cfg.ha = false) (h4 : cfg.lifespan = some life)
+    (init : List (Candle F)) (hraw : RawBk init) :
+    ∀ X, tasks cfg init = .ok X → tasks cfg X = .ok X := by
+  have hcfg : cfg = cfgTfLife tf life := by
+    obtain ⟨a, b, c, d⟩ := cfg
+    simp only at h1 h2 h3 h4
+    subst h1 h2 h3 h4
+    rfl
+  subst hcfg
+  intro X hX
+  obtain ⟨n1, e1, hn1, _⟩ := tasks_tf_life_append tf htf life hlife [] init (by simpa using hraw) 0 (Or.inl rfl)
+  simp only [resample, resampleR, List.foldl_nil, List.reverse_nil, List.filter_nil, List.nil_append] at e1 hn1
+  rw [e1] at hX
+  cases hX
+  by_cases hnil : init = []
+  · subst hnil
+    simp only [List.foldl_nil, List.reverse_nil, List.filter_nil]
+    exact tasks_nil _
+  · have hn1' : (resample tf init).getLast?.bind (·.ts) = some n1 := by
+      rcases hn1 with h | h
+      · exact absurd h hnil
+      · exact h
+    obtain ⟨n2, e2, hn2, _⟩ := tasks_tf_life_append tf htf life hlife init [] (by simpa using hraw) n1 (Or.inr hn1')
+    simp only [List.append_nil] at e2 hn2
+    have : n2 = n1 := by
+      rcases hn2 with h | h
+      · exact absurd h hnil
+      · rw [hn1'] at h; cases h; rfl
+    subst this
+    exact e2
+
+/-- re-collapsing an in-order bucket list gives it back -/
+theorem collapse_bucketed_self (tf : Int) (htf : 0 < tf) (Z : List (Candle F)) (hb : Bucketed tf Z)
+    (hc : ∀ c ∈ Z, CleanOk tf c) : collapseCandles (some tf) false Z = .ok Z := by
+  have hlab : labels tf Z = Z.filterMap (·.ts) := by
+    unfold labels
+    apply filterMap_congr'
+    intro a ha
+    obtain ⟨t, ht, hal⟩ := hb.stamped a ha
+    simp [ht, (label_on tf t hal).1]
+  have hmono : LabelsMono tf Z := by
+    unfold LabelsMono; rw [hlab]; exact hb.incr.imp (fun h => le_of_lt h)
+  rw [collapse_eq_resample tf htf Z
+    (by intro c hc'; obtain ⟨t, ht, _⟩ := hb.stamped c (List.mem_of_mem_head? hc'); simp [ht]) hc hmono]
+  have := resampleR_reverse_self tf Z.reverse (by simpa using hb.reverseR)
+  simp only [List.reverse_reverse] at this
+  simp [resample, this]
+
+/-- timeframe + gap filling (no conversion, no lifespan) -/
+theorem tasks_idem_tfFill (cfg : MgrCfg) (tf : Int) (htf : 0 < tf) (h1 : cfg.tf = some tf) (h2 : cfg.fill = true)
+    (h3 : cfg.ha = false) (h4 : cfg.lifespan = none) (init : List (Candle F)) (hraw : RawTf init) :
+    ∀ X, tasks cfg init = .ok X → tasks cfg X = .ok X := by
+  have hcfg : cfg = cfgFill tf := by
+    obtain ⟨a, b, c, d⟩ := cfg
+    simp only at h1 h2 h3 h4
+    subst h1 h2 h3 h4
+    rfl
+  subst hcfg
+  intro X hX
+  obtain ⟨Z, hZ⟩ := filledOf tf htf init hraw
+  rw [tasks_fill_raw tf htf init Z hraw hZ] at hX
+  have hXZ : Z = X := Except.ok.inj hX
+  subst hXZ
+  rw [tasks_cfgFill, collapse_fill_eq tf Z
+    (by intro c hc; obtain ⟨t, ht, _⟩ := hZ.bucketed.stamped c (List.mem_of_mem_head? hc); simp [ht]),
+    collapse_bucketed_self tf htf Z hZ.bucketed hZ.cleanOk]
+  exact fillMissing_contiguous tf htf Z hZ.contig
+
+/-- timeframe + gap filling + Heikin-Ashi (no lifespan) -/
+theorem tasks_idem_tfFillHA (cfg : MgrCfg) (tf : Int) (htf : 0 < tf) (h1 : cfg.tf = some tf) (h2 : cfg.fill = true)
+    (h3 : cfg.ha = true) (h4 : cfg.lifespan = none) (init : List (Candle F)) (hraw : RawTf init)
+    (htag : ∀ c ∈ init, c.tag = false) :
+    ∀ X, tasks cfg init = .ok X → tasks cfg X = .ok X := by
+  have hcfg : cfg = cfgFillHA tf := by
+    obtain ⟨a, b, c, d⟩ := cfg
+    simp only at h1 h2 h3 h4
+    subst h1 h2 h3 h4
+    rfl
+  subst hcfg
+  intro X hX
+  obtain ⟨Z0, hZ0⟩ := filledOf tf htf ([] : List (Candle F)) ⟨by simp, by simp, by simp, by simp⟩
+  have hnil := filledOf_nil tf Z0 hZ0
+  subst hnil
+  obtain ⟨Z1, hZ1, e1⟩ := tasks_fill_ha_append tf htf [] init [] (by simpa using hraw) (by simpa using htag) hZ0
+  simp only [haSpec_nil, List.nil_append] at e1 hZ1
+  rw [e1] at hX
+  cases hX
+  obtain ⟨Z2, hZ2, e2⟩ := tasks_fill_ha_append tf htf init [] Z1 (by simpa using hraw) (by simpa using htag) hZ1
+  simp only [List.append_nil] at e2 hZ2
+  have : Z2 = Z1 := by rw [← hZ2.spec_eq, ← hZ1.spec_eq]
+  rw [this] at e2
+  exact e2
+
+/-! ### the presupposition of the C08 oracle, spelt out -/
+
+/-- the default manager still holds the raw stream when the member managers are created: the Hexital is
+constructed without candles (everything arrives through `append`, ANY Hexital-level settings), or it has no
+timeframe of its own, is constructed from pristine candles and its lifespan trims none of them at construction
+time (Heikin-Ashi or not) -/
+inductive RawAtAttach (cfg : MgrCfg) (htf : Option String) (init : List (Candle F)) : Prop
+  | empty (h : init = [])
+  | raw (htf0 : cfg.tf = none) (hname : htf = none) (hp : ∀ c ∈ init, c.Pristine)
+      (hkeep : trimCandles cfg.lifespan init = .ok init)
+
+theorem RawAtAttach.handsOverRaw {cfg : MgrCfg} {htf : Option String} {init : List (Candle F)}
+    (h : RawAtAttach cfg htf init) (atf : Option String) (secs : Option Int)
+    (hkey : atf.getD defaultKey ≠ defaultKey) : HandsOverRaw cfg htf atf secs init := by
+  cases h with
+  | empty h => subst h; exact handsOverRaw_nil cfg htf atf secs hkey
+  | raw htf0 hname hp hkeep => exact handsOverRaw_rawDefault cfg htf atf secs init hkey htf0 hname hp hkeep
+
+omit [PyF F] in
+theorem Writes.getD_ne_default {atf : Option String} (h1 : atf ≠ none) (h2 : atf ≠ some defaultKey) :
+    atf.getD defaultKey ≠ defaultKey := by
+  cases atf with
+  | none => exact absurd rfl h1
+  | some t => intro e; exact h2 (by simpa using e)
+
+/-- **`C08.members_FULL` on the domain of the C08 oracle.**  Any Hexital configuration, any member set (any mix
+of timeframes, shared or not), any append schedule: each member ends with the candles and readings of the
+standalone indicator with its effective configuration fed the same stream – provided
+(1) no collision / input dependency between the member and the others (`TreeOK`, as in `member_standalone`),
+(2) the `Member` records are well formed (a timeframe name determines its seconds and is not the manager key
+"default"), and (3) the default manager still holds the raw stream when the member managers are created
+(`RawAtAttach`).  (3) cannot be dropped: `members_FULL_counterexample`. -/
+theorem members_rawAtAttach (cfg : MgrCfg) (tfName : Option String) (members : List (Member F))
+    (init : List (Candle F)) (chunks : List (List (Candle F))) (mem : Member F) (h : Hexital F)
+    (twin : IndState F) (N : List String)
+    (hmem : mem ∈ members) (huniq : ∀ m' ∈ members, m'.tree.name = mem.tree.name → m' = mem)
+    (hoth : ∀ m, m ∈ members → m.tree.name ≠ mem.tree.name → ∀ k, k ∈ m.tree.allNames → k ∈ N)
+    (hok : TreeOK N mem.tree)
+    (hsecs : ∀ m, m ∈ members → m.tfName = mem.tfName → m.tfSecs = mem.tfSecs)
+    (hkey : mem.tfName ≠ some defaultKey)
+    (hraw : RawAtAttach cfg tfName init)
+    (hrun : (do let h ← Hexital.init cfg tfName init members
+                let h ← h.calculate none
+                chunks.foldlM (fun (h : Hexital F) ch => h.append ch) h) = .ok h)
+    (htwin : (do let s ← IndState.init mem.tree (match mem.tfName with
+                                                   | some _ => { cfg with tf := mem.tfSecs }
+                                                   | none => cfg) init
+                 let s ← s.calculate
+                 chunks.foldlM (fun (s : IndState F) ch => s.append ch) s) = .ok twin) :
+    ∃ hi m, dlookup mem.tree.name h.indicators = some hi ∧ dlookup hi.mgrKey h.managers = some m ∧
+      m.candles.map Candle.core = twin.mgr.candles.map Candle.core ∧
+      ∀ k, k ∈ mem.tree.allNames →
+        m.candles.map (fun c => (dlookup k c.inds, dlookup k c.subs)) =
+        twin.mgr.candles.map (fun c => (dlookup k c.inds, dlookup k c.subs)) :=
+  members_partial cfg tfName members init chunks mem h twin N hmem huniq hoth hok
+    (fun m hm he _ => hsecs m hm he)
+    (fun hn => hraw.handsOverRaw mem.tfName mem.tfSecs (Writes.getD_ne_default hn hkey)) hrun htwin
+
+/-! ### all proved cases in one statement -/
+
+/-- the cases in which the member `a`'s manager, created from the default manager's candles at construction
+time, is the manager of the standalone twin constructed from the caller's candles -/
+inductive AttachOK (cfg : MgrCfg) (htf : Option String) (init : List (Candle F)) (a : Member F) : Prop
+  /-- no timeframe of its own: the member lives on the default manager (`member_standalone`) -/
+  | noTf (h : a.tfName = none)
+  /-- the default manager still holds the raw stream (`RawAtAttach`) -/
+  | raw (hkey : a.tfName ≠ some defaultKey) (h : RawAtAttach cfg htf init)
+  /-- the member's timeframe is the Hexital's own and the manager's tasks are idempotent on the construction
+  candles (`tasks_idem_plainTf`, `tasks_idem_tfHA`, `tasks_idem_tfLife`, `tasks_idem_tfFill`, `tasks_idem_tfFillHA`) -/
+  | sameTf (hn : a.tfName = htf) (hs : a.tfSecs = cfg.tf)
+      (hidem : ∀ X, tasks cfg init = .ok X → tasks cfg X = .ok X)
+
+theorem AttachOK.handsOverRaw {cfg : MgrCfg} {htf : Option String} {init : List (Candle F)} {a : Member F}
+    (h : AttachOK cfg htf init a) (hne : a.tfName ≠ none) : HandsOverRaw cfg htf a.tfName a.tfSecs init := by
+  cases h with
+  | noTf h => exact absurd h hne
+  | raw hkey h => exact h.handsOverRaw a.tfName a.tfSecs (Writes.getD_ne_default hne hkey)
+  | sameTf hn hs hidem =>
+    cases ha : a.tfName with
+    | none => exact absurd ha hne
+    | some name =>
+      rw [← hn, ha, hs]
+      exact handsOverRaw_sameTf cfg name init hidem
+
+/-- **`C08.members_FULL` on every case proved** (`AttachOK`), hypotheses (1) and (2) as in `members_rawAtAttach` -/
+theorem members_attachOK (cfg : MgrCfg) (tfName : Option String) (members : List (Member F))
+    (init : List (Candle F)) (chunks : List (List (Candle F))) (mem : Member F) (h : Hexital F)
+    (twin : IndState F) (N : List String)
+    (hmem : mem ∈ members) (huniq : ∀ m' ∈ members, m'.tree.name = mem.tree.name → m' = mem)
+    (hoth : ∀ m, m ∈ members → m.tree.name ≠ mem.tree.name → ∀ k, k ∈ m.tree.allNames → k ∈ N)
+    (hok : TreeOK N mem.tree)
+    (hsecs : ∀ m, m ∈ members → m.tfName = mem.tfName → m.tfSecs = mem.tfSecs)
+    (hatt : AttachOK cfg tfName init mem)
+    (hrun : (do let h ← Hexital.init cfg tfName init members
+                let h ← h.calculate none
+                chunks.foldlM (fun (h : Hexital F) ch => h.append ch) h) = .ok h)
+    (htwin : (do let s ← IndState.init mem.tree (match mem.tfName with
+                                                   | some _ => { cfg with tf := mem.tfSecs }
+                                                   | none => cfg) init
+                 let s ← s.calculate
+                 chunks.foldlM (fun (s : IndState F) ch => s.append ch) s) = .ok twin) :
+    ∃ hi m, dlookup mem.tree.name h.indicators = some hi ∧ dlookup hi.mgrKey h.managers = some m ∧
+      m.candles.map Candle.core = twin.mgr.candles.map Candle.core ∧
+      ∀ k, k ∈ mem.tree.allNames →
+        m.candles.map (fun c => (dlookup k c.inds, dlookup k c.subs)) =
+        twin.mgr.candles.map (fun c => (dlookup k c.inds, dlookup k c.subs)) :=
+  members_partial cfg tfName members init chunks mem h twin N hmem huniq hoth hok
+    (fun m hm he _ => hsecs m hm he) hatt.handsOverRaw hrun htwin
+
+/-! ### non-vacuity (toy carrier `Int`) -/
+
+theorem isOk_ok {α : Type} {x : PyM α} (h : isOk x = true) : ∃ a, x = .ok a := by
+  cases x with
+  | ok a => exact ⟨a, rfl⟩
+  | error e => cases h
+
+namespace TwinTfEx
+
+def candle (k : Nat) : Candle Int :=
+  let c : Int := 10 + ((k : Int) * 7) % 5
+  { o := .int c, h := .int (c + 2), l := .int (c - 1), c := .int (c + 1), v := .int 10, ts := some (60 * (k : Int)) }
+def stream : List (Candle Int) := (List.range 8).map candle
+
+def a : Member Int := { tree := mkTop (.sma 2 "close") "SMA_2" 4, tfName := none, tfSecs := none }
+def aT : Member Int := { tree := mkTop (.sma 2 "close") "SMA_2_T2" 4, tfName := some "T2", tfSecs := some 120 }
+def bT : Member Int := { tree := mkTop (.rsi 2 "close") "RSI_2_T2" 4, tfName := some "T2", tfSecs := some 120 }
+def cT : Member Int := { tree := mkTop (.ema 2 "close" (.int 2)) "EMA_2_T3" 4, tfName := some "T3", tfSecs := some 180 }
+def members : List (Member Int) := [bT, a, aT, cT]
+def others : List String := bT.tree.allNames ++ a.tree.allNames ++ cT.tree.allNames
+
+/-- a Heikin-Ashi Hexital without a timeframe whose lifespan (8 min) trims nothing at construction time but
+does trim later -/
+def cfg : MgrCfg := { ha := true, lifespan := some 480 }
+
+def ops : List (TwinOp Int) :=
+  [.calculate none, .append [candle 8, candle 9], .purge (some "RSI_2_T2"), .append [candle 10],
+   .recalculate (some "SMA_2_T2"), .calculateIndex none 2, .append [candle 11, candle 12, candle 13]]
+
+/-- the hypotheses of `member_standalone_tf` / `handsOverRaw_rawDefault`, decidable forms -/
+theorem hyps :
+    members.all (fun m => m.tfName != aT.tfName || m.tfSecs == aT.tfSecs) = true ∧
+    stream.all Candle.pristineb = true ∧ trimKeepsb cfg.lifespan stream = true ∧
+    (C13.othersNames "SMA_2_T2" members).all others.contains = true ∧
+    treeOKb others aT.tree = true ∧ ops.all (TwinOp.okb others "SMA_2_T2") = true ∧
+    readOK others "SMA_2_T2" = true ∧
+    isOk (runHexital cfg none stream members ops) = true := by decide +kernel
+
+/-- the theorem applied: the Hexital run succeeds, so does the plain standalone `SMA(period=2, timeframe="T2",
+candlestick_type="HA", candles_lifespan=8 min)` over the raw stream, and the column read through the Hexital is
+the standalone indicator's -/
+theorem applied : ∃ H twin, runHexital cfg none stream members ops = .ok H ∧
+    (do let s ← IndState.init aT.tree { cfg with tf := some 120 } stream
+        ops.foldlM (TwinOp.runInd "SMA_2_T2") s) = .ok twin ∧
+    H.readingAsList "SMA_2_T2" = .ok (twin.asList (some "SMA_2_T2")) := by
+  obtain ⟨h1, h2, h3, h4, h5, h6, h7, h8⟩ := hyps
+  obtain ⟨H, hH⟩ := isOk_ok h8
+  have hd : Hexital.dedupe members = members := by
+    simp [Hexital.dedupe, members, a, aT, bT, cT, mkTop, Ind.name, dset]
+  obtain ⟨twin, ht, _, hcol⟩ := member_standalone_tf cfg none stream members aT others ops H
+    (by rw [hd]; simp [members])
+    (fun m hm he _ => by
+      rw [hd] at hm
+      have := List.all_eq_true.1 h1 m hm
+      simp only [Bool.or_eq_true, bne_iff_ne, ne_eq, beq_iff_eq] at this
+      rcases this with h | h
+      · exact absurd he h
+      · exact h)
+    (fun _ => handsOverRaw_rawDefault cfg none _ _ stream (by decide) rfl rfl
+      (Candle.pristine_of_b _ h2) (trim_keeps_of_b _ _ h3))
+    (fun m hm hn k hk => by
+      rw [hd] at hm
+      have := List.all_eq_true.1 h4 k (C13.othersNames_spec "SMA_2_T2" members m hm hn k hk)
+      simpa using this)
+    (treeOK_of_b h5) (TwinOp.ok_of_okb ops h6) hH
+  exact ⟨H, twin, hH, ht, hcol "SMA_2_T2" (by decide) h7⟩
+
+/-- … and it is not about empty columns or untrimmed lists: at the end the member manager holds 5 buckets
+(of 8: the lifespan has popped three), each with a reading -/
+theorem applied_nontrivial :
+    (match (do let s ← IndState.init aT.tree { cfg with tf := some 120 } stream
+               ops.foldlM (TwinOp.runInd "SMA_2_T2") s) with
+     | .ok twin => (twin.asList none).map Val.isNone
+     | .error _ => []) = [false, false, false, false, false] := by decide +kernel
+
+/-- `members_rawAtAttach`, first alternative: a Hexital WITH a timeframe (`T1`), gap filling and a lifespan,
+constructed without candles and fed half-minute candles in chunks; the member `SMA_2_T2` next to `SMA_2`
+(which lives on the `T1` default manager) -/
+def cfg1 : MgrCfg := { tf := some 60, fill := true, lifespan := some 300 }
+def half (k : Nat) : Candle Int := { candle k with ts := some (30 * (k : Int) + 30) }
+def chunks : List (List (Candle Int)) :=
+  [[half 0, half 1, half 2], [], [half 3], [half 4, half 5, half 6, half 7, half 8], [half 9, half 10, half 11],
+   [half 12, half 13, half 14, half 15, half 16, half 17, half 18, half 19]]
+
+def run1 : PyM (Hexital Int) := do
+  let h ← Hexital.init cfg1 (some "T1") [] [a, aT]
+  let h ← h.calculate none
+  chunks.foldlM (fun (h : Hexital Int) ch => h.append ch) h
+
+def twin1 : PyM (IndState Int) := do
+  let s ← IndState.init aT.tree (match aT.tfName with
+                                  | some _ => { cfg1 with tf := aT.tfSecs }
+                                  | none => cfg1) []
+  let s ← s.calculate
+  chunks.foldlM (fun (s : IndState Int) ch => s.append ch) s
+
+theorem hyps1 : treeOKb a.tree.allNames aT.tree = true ∧ isOk run1 = true ∧ isOk twin1 = true ∧
+    (match twin1 with
+     | .ok t => (t.asList none).map Val.isNone
+     | .error _ => []) = [false, false, false] := by decide +kernel
+
+theorem applied1 : ∃ h twin hi m, run1 = .ok h ∧ twin1 = .ok twin ∧
+    dlookup "SMA_2_T2" h.indicators = some hi ∧ dlookup hi.mgrKey h.managers = some m ∧
+    m.candles.map Candle.core = twin.mgr.candles.map Candle.core ∧
+    storedUnder "SMA_2_T2" m.candles = storedUnder "SMA_2_T2" twin.mgr.candles := by
+  obtain ⟨h1, h2, h3, _⟩ := hyps1
+  obtain ⟨h, hh⟩ := isOk_ok h2
+  obtain ⟨twin, ht⟩ := isOk_ok h3
+  obtain ⟨hi, m, e1, e2, e3, e4⟩ := members_rawAtAttach cfg1 (some "T1") [a, aT] [] chunks aT h twin a.tree.allNames
+    (by simp)
+    (by
+      intro m' hm' hn
+      rcases List.mem_cons.1 hm' with e | e
+      · subst e; exact absurd hn (by decide)
+      · simpa using e)
+    (by
+      intro m hm hn k hk
+      rcases List.mem_cons.1 hm with e | e
+      · subst e; exact hk
+      · have : m = aT := by simpa using e
+        subst this; exact absurd rfl hn)
+    (treeOK_of_b h1)
+    (by
+      intro m hm he
+      rcases List.mem_cons.1 hm with e | e
+      · subst e; exact absurd he (by decide)
+      · have : m = aT := by simpa using e
+        subst this; rfl)
+    (by decide) (.empty rfl) hh ht
+  exact ⟨h, twin, hi, m, hh, ht, e1, e2, e3, e4 "SMA_2_T2" (by decide)⟩
+
+/-- (c): the member's timeframe is the Hexital's own (`T2`); the member manager re-collapses the default
+manager's buckets -/
+theorem rawBk_stream : RawBk stream :=
+  ⟨by simp [stream, candle], by simp [stream, candle], by decide⟩
+
+example : HandsOverRaw { tf := some 120 } (some "T2") (some "T2") (some 120) stream :=
+  handsOverRaw_sameTf { tf := some 120 } "T2" stream
+    (tasks_idem_plainTf _ 120 (by decide) rfl rfl rfl rfl stream rawBk_stream)
+
+example : HandsOverRaw { tf := some 120, lifespan := some 240 } (some "T2") (some "T2") (some 120) stream :=
+  handsOverRaw_sameTf { tf := some 120, lifespan := some 240 } "T2" stream
+    (tasks_idem_tfLife _ 120 240 (by decide) (by decide) rfl rfl rfl rfl stream rawBk_stream)
+
+example : HandsOverRaw { tf := some 120, ha := true } (some "T2") (some "T2") (some 120) stream :=
+  handsOverRaw_sameTf { tf := some 120, ha := true } "T2" stream
+    (tasks_idem_tfHA _ 120 (by decide) rfl rfl rfl rfl stream
+      ⟨rawBk_stream.stamped, fun c hc => ⟨by revert c; simp [stream, candle], rawBk_stream.cleanNone c hc⟩,
+       rawBk_stream.sorted⟩)
+
+end TwinTfEx
 
 end Hex
